@@ -5,6 +5,7 @@ import (
 	"go/constant"
 	"go/token"
 	"go/types"
+	"strings"
 
 	"engcheck/core"
 )
@@ -35,6 +36,7 @@ func init() {
 		c03Silence(c)
 		c03ListenerPairs(c)
 		c03TransportGuards(c)
+		c03AdmittedStates(c, "C03.5b", nil)
 	})
 }
 
@@ -486,5 +488,183 @@ func c03TransportGuards(c *core.Ctx) {
 			c.Check(R, "transports.(*transport).OnClose/emit(close)-guarded", e.Pos(), excludesAll(g, e.Loc, trStateKeys, "transport._readyState", "closed"), "a closed transport does not emit close again")
 		}
 		c.Need(R, "Emit(close) in transport.OnClose", n, 1)
+	}
+}
+
+// admittedStates evaluates, for each of the four session states, whether loc
+// is reachable when every comparison of the session state with a constant on
+// the way is decided as if the state had that value (abstract interpretation
+// over the finite state domain; other conditions are left undecided = both
+// edges possible).
+func admittedStates(u *core.Unit, loc core.Loc, keys []string, field string) map[string]bool {
+	g := u.Graph()
+	out := map[string]bool{}
+	branches := map[*cfgBlock]core.Branch{}
+	for _, br := range g.Branches() {
+		branches[br.B] = br
+	}
+	// three-valued evaluation of a condition under "state == st": 1 true, -1 false, 0 unknown
+	var eval func(e ast.Expr, st string) int
+	atom := func(br core.Branch, st string) int {
+		cmp, ok := u.BranchCmp(br)
+		if !ok || cmp.Val == nil || cmp.Val.Kind() != constant.String || !sessionStateExpr(u, cmp.X, keys, field) {
+			return 0
+		}
+		v := constant.StringVal(cmp.Val)
+		switch cmp.Op {
+		case token.EQL:
+			if st == v {
+				return 1
+			}
+			return -1
+		case token.NEQ:
+			if st != v {
+				return 1
+			}
+			return -1
+		}
+		return 0
+	}
+	eval = func(e ast.Expr, st string) int {
+		e = ast.Unparen(e)
+		switch x := e.(type) {
+		case *ast.UnaryExpr:
+			if x.Op == token.NOT {
+				return -eval(x.X, st)
+			}
+		case *ast.BinaryExpr:
+			switch x.Op {
+			case token.LAND:
+				a, b := eval(x.X, st), eval(x.Y, st)
+				if a == -1 || b == -1 {
+					return -1
+				}
+				if a == 1 && b == 1 {
+					return 1
+				}
+				return 0
+			case token.LOR:
+				a, b := eval(x.X, st), eval(x.Y, st)
+				if a == 1 || b == 1 {
+					return 1
+				}
+				if a == -1 && b == -1 {
+					return -1
+				}
+				return 0
+			}
+		}
+		return atom(core.Branch{Cond: e}, st)
+	}
+	for st := range stateOrder {
+		st := st
+		edgeOK := func(from *cfgBlock, k int) bool {
+			br, ok := branches[from]
+			if !ok {
+				return true
+			}
+			var v int
+			if br.IsCase {
+				v = atom(br, st)
+			} else {
+				v = eval(br.Cond, st)
+			}
+			if v == 1 && k == 1 {
+				return false
+			}
+			if v == -1 && k == 0 {
+				return false
+			}
+			return true
+		}
+		if g.Reach(g.Entry(), func(s core.State) bool { return s.B == loc.B && s.I == loc.I }, nil, edgeOK) {
+			out[st] = true
+		}
+	}
+	return out
+}
+
+func stateSetString(m map[string]bool) string {
+	var out []string
+	for _, s := range []string{"opening", "open", "closing", "closed"} {
+		if m[s] {
+			out = append(out, s)
+		}
+	}
+	return "{" + strings.Join(out, ",") + "}"
+}
+
+// c03AdmittedStates — the exact set of session states in which each guarded effect runs.
+// only: restrict to the listed table rows (nil = all).
+func c03AdmittedStates(c *core.Ctx, R string, only map[string]bool) {
+	c.Rule(R, "exact admitted-state table (abstract evaluation of the ready-state comparisons over {opening, open, closing, closed}): packet delivery in onPacket runs exactly in {open}; sendPacket's effects exactly in {opening, open}; flush hands a batch over in {opening, open, closing} (a closing session must still drain its buffer, otherwise a graceful Close never completes); the ping-timeout callback closes the session in {opening, open, closing} (a closing session whose client is gone must still time out); the upgrade switch in {opening, open, closing}; a guard that is too strict is as wrong as one that is too loose")
+	type row struct {
+		id    string
+		unit  string
+		find  func(u *core.Unit) *core.Call
+		want  string
+		field string
+	}
+	rows := []row{
+		{"onPacket/emit(packet)", sockOnPacket, func(u *core.Unit) *core.Call {
+			for _, e := range filterEv(events(c, u), "emit", "session", "packet") {
+				return e.Call
+			}
+			return nil
+		}, "{open}", "socket.readyState"},
+		{"sendPacket/Push", sockSendPkt, func(u *core.Unit) *core.Call {
+			for _, cl := range fieldCalls(u, "socket.writeBuffer") {
+				if cl.Name == "Push" {
+					return cl
+				}
+			}
+			return nil
+		}, "{opening,open}", "socket.readyState"},
+		{"flush/Send", sockFlush, func(u *core.Unit) *core.Call {
+			for _, cl := range u.CallsTo("transports.(Transport).Send") {
+				return cl
+			}
+			return nil
+		}, "{opening,open,closing}", "socket.readyState"},
+		{"resetPingTimeout$callback/OnClose(ping timeout)", "engine.(*socket).resetPingTimeout", func(u *core.Unit) *core.Call {
+			for _, st := range u.CallsTo(setTimeoutKey) {
+				if k := closureArg(u, st, 0); k != nil {
+					for _, cl := range k.CallsTo(sockOnClose) {
+						return cl
+					}
+				}
+			}
+			return nil
+		}, "{opening,open,closing}", "socket.readyState"},
+		{"MaybeUpgrade$onPacket/setTransport", sockUpgrade + "$onPacket", func(u *core.Unit) *core.Call {
+			for _, cl := range u.CallsTo(sockSetTr) {
+				return cl
+			}
+			return nil
+		}, "{opening,open,closing}", "socket.readyState"},
+		{"Close/closeTransport(discard)", sockClose, func(u *core.Unit) *core.Call {
+			// the first closeTransport call (discard branch)
+			for _, cl := range u.CallsTo("engine.(*socket).closeTransport") {
+				return cl
+			}
+			return nil
+		}, "{open,closing}", "socket.readyState"},
+	}
+	for _, r := range rows {
+		if only != nil && !only[r.id] {
+			continue
+		}
+		u := c.Fn(R, r.unit)
+		if u == nil {
+			continue
+		}
+		cl := r.find(u)
+		if cl == nil {
+			c.Violate(R, "engine/"+r.id, u.Pos(), "effect not found")
+			continue
+		}
+		c.Touch(cl.U)
+		got := stateSetString(admittedStates(cl.U, cl.Loc, sockStateKeys, r.field))
+		c.Check(R, "engine/"+r.id+"@states", cl.Pos(), got == r.want, keyf("runs in %s, table says %s", got, r.want))
 	}
 }
